@@ -381,19 +381,84 @@ def designation(inst):
     return dict(subspace_eigenvectors=tuple(vecs))
 
 
+def symbol_names(inst):
+    return inst.get("symnames") or [f"a{i}" for i in range(inst["k"])]
+
+
+def present(inst):
+    """The Hamiltonian in the container format inst['format'] (default dict of order tuples).
+
+    Returns (hamiltonian, extra_kwargs, param_map) where param_map[j] is the index of
+    the instance's parameter that the library will call parameter j."""
+    import sympy
+
+    fmt = inst.get("format", "dict")
+    H = concrete_hamiltonian(inst)
+    k = inst["k"]
+    ident_map = list(range(k))
+    first_only = all(sum(n) <= 1 for n in H)
+    if fmt == "list" and first_only:
+        zero_like = H[(0,) * k] * 0
+        return [H[(0,) * k]] + [H.get(tuple(int(i == j) for i in range(k)), zero_like) for j in range(k)], {}, ident_map
+    if fmt == "blockseries":
+        from pymablock.series import BlockSeries
+
+        return BlockSeries(data=dict(H), shape=(), n_infinite=k), {}, ident_map
+    if fmt == "symkeys":
+        names = symbol_names(inst)
+        syms = [sympy.Symbol(nm) for nm in names]
+        out = {}
+        for n, v in H.items():
+            key = sympy.Integer(1)
+            for s_, e in zip(syms, n):
+                key = key * s_**e
+            out[key] = v
+        order = sorted(range(k), key=lambda i: names[i])  # the library sorts symbols by name
+        return out, {}, order
+    if fmt == "sympy_matrix" and inst["vtype"] == "sympy":
+        names = symbol_names(inst)
+        syms = [sympy.Symbol(nm, real=True) for nm in names]
+        total = sympy.zeros(inst["d"], inst["d"])
+        for n, v in H.items():
+            mono = sympy.Integer(1)
+            for s_, e in zip(syms, n):
+                mono = mono * s_**e
+            total = total + v * mono
+        return sympy.Matrix(total), dict(symbols=syms), ident_map
+    return H, {}, ident_map
+
+
 def run_block_diagonalize(inst, **kwargs):
     import pymablock
 
-    H = concrete_hamiltonian(inst)
+    H, extra, pmap = present(inst)
+    inst["_param_map"] = pmap
     with warnings.catch_warnings():
         warnings.simplefilter("ignore")
-        return pymablock.block_diagonalize(
+        outs = pymablock.block_diagonalize(
             H,
             fully_diagonalize=fd_argument(inst),
             hermitian=inst.get("hermitian", True),
             **designation(inst),
+            **extra,
             **kwargs,
         )
+    if inst.get("format") in ("symkeys", "sympy_matrix"):
+        # the parameter order is READ from the returned series, never assumed
+        try:
+            libnames = [str(x) for x in outs[0].dimension_names]
+            mine = symbol_names(inst)
+            if sorted(libnames) == sorted(mine):
+                inst["_param_map"] = [mine.index(nm) for nm in libnames]
+        except Exception:  # noqa: BLE001
+            pass
+    return outs
+
+
+def lib_order(inst, n):
+    """Multi-order of the instance -> index tuple in the library's parameter order."""
+    pmap = inst.get("_param_map") or list(range(inst["k"]))
+    return tuple(n[pmap[j]] for j in range(inst["k"]))
 
 
 SNAP_BITS = 40
@@ -511,9 +576,10 @@ def make_session(inst, sid, p, outputs=None, spectrum=1):
     ords = order_seq(k, N)
     out = []
     for n in ords:
-        ht, _ = assemble(Ht, n, sizes, p)
-        u, _ = assemble(U, n, sizes, p)
-        ud, _ = assemble(Ud, n, sizes, p)
+        ln = lib_order(inst, n)
+        ht, _ = assemble(Ht, ln, sizes, p)
+        u, _ = assemble(U, ln, sizes, p)
+        ud, _ = assemble(Ud, ln, sizes, p)
         out.append({"Ht": ht, "U": u, "Ud": ud})
     sess = dict(sid=sid, k=k, N=N, ords=[list(n) for n in ords],
                 H=truth_series(inst, p), out=out, spectrum=spectrum,
@@ -535,6 +601,7 @@ def describe(inst):
             Mi=[[[f(x), f(y)] for (x, y) in row] for row in inst["basis"]["Mi"]]),
         k=inst["k"], N=inst["N"], vtype=inst["vtype"], fdkind=inst["fdkind"],
         fd_blocks=inst["fd_blocks"], hermitian=inst.get("hermitian", True),
+        format=inst.get("format", "dict"), symnames=inst.get("symnames"),
         masks={str(b): m.astype(int).tolist() for b, m in inst["masks"].items()},
         terms={",".join(map(str, n)): [[[f(x), f(y)] for (x, y) in row] for row in m]
                for n, m in inst["terms"].items()},
@@ -554,6 +621,7 @@ def from_description(desc):
             Mi=[[(g(x), g(y)) for (x, y) in row] for row in desc["basis"]["Mi"]]),
         k=desc["k"], N=desc["N"], vtype=desc["vtype"], fdkind=desc["fdkind"],
         fd_blocks=desc["fd_blocks"], hermitian=desc.get("hermitian", True),
+        format=desc.get("format", "dict"), symnames=desc.get("symnames"),
         masks={int(b): np.array(m, dtype=bool) for b, m in desc["masks"].items()},
         terms={tuple(int(x) for x in n.split(",")): [[(g(x), g(y)) for (x, y) in row] for row in m]
                for n, m in desc["terms"].items()},
